@@ -3,7 +3,7 @@
 set -e
 T=$(mktemp -d /tmp/vt-try-XXXX)
 rsync -a --exclude .git /repo/ $T/repo/
-(cd $T/repo && patch -p1 -s < "$1")
+P=$(readlink -f "$1"); (cd $T/repo && patch -p1 -s < "$P")
 VERIF_REPO=$T/repo VERIF_OUT=$T/out /verif/bin/casketlint check $2 2>&1 | grep -v "^WARNING" | grep -v "KNOWN-FINDING" | cut -c1-400 || true
 for f in $T/out/out/violations/*.json $T/out/violations/*.json; do [ -f "$f" ] && python3 -c "
 import json,sys;d=json.load(open('$f'));v=d.get('violation',d);print(v.get('construct'), v.get('facts'))"; done
